@@ -96,3 +96,15 @@ class TopExt(Config):
     leaf: Param[Optional[LeafExt]]
     t: Param[int] = 5
     fresh: Param[Optional[LeafExt]]
+
+
+from xv.defs.ident import Out  # noqa: E402
+
+
+class WithDef(Config):
+    """A configuration-typed parameter whose default is a configuration"""
+
+    __xpmid__ = "xv.withdef"
+
+    sub: Param[Out] = Out(w=1)
+    n: Param[int] = 0
